@@ -146,12 +146,11 @@ func vC12Pair(mode string) {
 func H_C12_pair_lifo()        { vC12Pair("lifo") }
 func H_C12_pair_adversarial() { vC12Pair("adversarial") }
 
-// three calls: A and B populate pools and cache, C is checked
-func vC12Triple(mode string) {
+// three calls: A and B populate pools and cache, C is checked (one harness per first call)
+func vC12Triple(mode string, a int) {
 	vPoolMode(mode)
 	vUNoFail = true
 	vGlobalRules()
-	a := vndChoice("opA", vC12NOps)
 	b := vndChoice("opB", vC12NOps)
 	c := vndChoice("opC", 5)
 	vC12Op(a, "a", false)
@@ -160,8 +159,24 @@ func vC12Triple(mode string) {
 	vReach("end")
 }
 
-func H_C12T_triple_lifo()        { vC12Triple("lifo") }
-func H_C12T_triple_adversarial() { vC12Triple("adversarial") }
+func H_C12T_triple_lifo_0() { vC12Triple("lifo", 0) }
+func H_C12T_triple_lifo_1() { vC12Triple("lifo", 1) }
+func H_C12T_triple_lifo_2() { vC12Triple("lifo", 2) }
+func H_C12T_triple_lifo_3() { vC12Triple("lifo", 3) }
+func H_C12T_triple_lifo_4() { vC12Triple("lifo", 4) }
+func H_C12T_triple_lifo_5() { vC12Triple("lifo", 5) }
+func H_C12T_triple_lifo_6() { vC12Triple("lifo", 6) }
+func H_C12T_triple_lifo_7() { vC12Triple("lifo", 7) }
+func H_C12T_triple_lifo_8() { vC12Triple("lifo", 8) }
+func H_C12T_triple_adv_0()  { vC12Triple("adversarial", 0) }
+func H_C12T_triple_adv_1()  { vC12Triple("adversarial", 1) }
+func H_C12T_triple_adv_2()  { vC12Triple("adversarial", 2) }
+func H_C12T_triple_adv_3()  { vC12Triple("adversarial", 3) }
+func H_C12T_triple_adv_4()  { vC12Triple("adversarial", 4) }
+func H_C12T_triple_adv_5()  { vC12Triple("adversarial", 5) }
+func H_C12T_triple_adv_6()  { vC12Triple("adversarial", 6) }
+func H_C12T_triple_adv_7()  { vC12Triple("adversarial", 7) }
+func H_C12T_triple_adv_8()  { vC12Triple("adversarial", 8) }
 
 // clause builders use pooled buffers: the text of one call's clauses must not leak into the next
 func H_C12_buffers() {
